@@ -76,6 +76,23 @@ class World:
                     return f"`{core.src(cs.node)[:60]}` in {cf} line {cl} is resolved by method name only ({len(cs.callees)} candidate classes)"
         return None
 
+    threads_view = False      # set by the C16 check: objects private to a thread are not shared between threads
+
+    def thread_private(self, root: str) -> bool:
+        """the module-level object is an instance of a repository class derived from threading.local whose attributes are set in
+        its __init__ (which runs once per thread); the `initialised once at import` pitfall of a bare threading.local() is C16.4"""
+        base = root
+        while base and base not in self.model.var_class and "." in base:
+            base = base.rsplit(".", 1)[0]
+        cq = self.model.var_class.get(base)
+        if not cq:
+            return False
+        for k in self.model.mro(cq):
+            node = self.model.classes[k].node
+            if any(core.src(b) in ("threading.local", "local") for b in node.bases):
+                return True
+        return False
+
     def shared_writes(self) -> List[SharedWrite]:
         groups: Dict[Tuple[str, Optional[str], str, str], SharedWrite] = {}
         for f in sorted(self.reach):
@@ -84,6 +101,8 @@ class World:
                 continue
             for g in fa.global_mutations():
                 root = g.target[1]
+                if self.threads_view and self.thread_private(root):
+                    continue          # reached only through a threading.local subclass instance: each thread has its own
                 fld = None
                 m = re.search(r"\bself\.(\w+)", g.origin_text)
                 if g.target[2] >= 1 and self.eff.is_instance_object(root):
@@ -517,6 +536,10 @@ def history_definite(model: Model, sw: "SharedWrite") -> bool:
             continue
         if base in ("subscript-aug", "aug-assign") or base.startswith("attr-aug:"):
             return True
+        if base in ("method:insert", "method:extend") and any(kk.split(" (")[0] in ("method:clear", "del") for kk, _l, _t in sw.records):
+            # a work list that the same code also empties: whether it is empty again when the next call starts is a question of
+            # the clearing discipline (try / finally, give-back), not decided here
+            continue
         if base in ("method:reverse", "method:insert", "method:extend"):
             return True
         # (an in-place sort of persistent data is idempotent: whether a call ever sees the unsorted state is a question about
@@ -639,6 +662,53 @@ def _is_self_field(e: ast.AST, fld: str) -> bool:
 
 def _is_slot(e: ast.AST, fld: str) -> bool:
     return isinstance(e, ast.Subscript) and _is_self_field(e.value, fld)
+
+
+def lock_names(model: Model) -> Set[str]:
+    """names (module variables and attribute names) that hold a threading.Lock / RLock created in the package"""
+    cached = getattr(model, "_lock_names", None)
+    if cached is not None:
+        return cached
+    out: Set[str] = set()
+    for rel, tree in model.sources.trees.items():
+        for n in ast.walk(tree):
+            if isinstance(n, (ast.Assign, ast.AnnAssign)) and n.value is not None and isinstance(n.value, ast.Call):
+                f = core.src(n.value.func)
+                if f.split(".")[-1] in ("Lock", "RLock"):
+                    for t in (n.targets if isinstance(n, ast.Assign) else [n.target]):
+                        if isinstance(t, ast.Name):
+                            out.add(t.id)
+                        elif isinstance(t, ast.Attribute):
+                            out.add(t.attr)
+    model._lock_names = out
+    return out
+
+
+def locks_at(model: Model, func: str, line: int) -> Set[str]:
+    """locks (by name) held at `line` of `func`: enclosing `with LOCK:` / `with self._lock:` statements"""
+    fi = model.funcs.get(func)
+    if fi is None:
+        return set()
+    names = lock_names(model)
+    held: Set[str] = set()
+    for n in ast.walk(fi.node):
+        if isinstance(n, ast.With) and n.lineno <= line <= max(getattr(n, "end_lineno", n.lineno), n.lineno):
+            for it in n.items:
+                e = it.context_expr
+                nm = e.id if isinstance(e, ast.Name) else (e.attr if isinstance(e, ast.Attribute) else None)
+                if nm in names:
+                    held.add(nm)
+    return held
+
+
+def generic_setter(model: Model, func: str, key_vars: Set[str], extra: Set[str]) -> bool:
+    """`def store(self, key, value): self.entries[key] = value`: the key and what the value depends on are both parameters of the
+    storing function, so whether the key determines the value is a property of its call sites, not of this function"""
+    fi = model.funcs.get(func)
+    if fi is None:
+        return False
+    params = {a.arg for a in fi.node.args.args + fi.node.args.kwonlyargs if a.arg not in ("self", "cls")}
+    return bool(extra) and extra <= params and bool(key_vars) and key_vars <= params
 
 
 def stale_slot_read(model: Model, func: str, obj_name: str) -> Optional[str]:
